@@ -82,7 +82,13 @@ int lha_input_stream_read(LHAInputStream *s, void *buf, size_t n) { (void) s; (v
 int lha_input_stream_skip(LHAInputStream *s, size_t n) { (void) s; (void) n; return 1; }
 
 /* ---- the abstract archive --------------------------------------------------------------------------------- */
-static const char *const cat_path[4] = { 0, "a/", "a/b/", "c/" };
+#ifdef DIRS_ONLY     /* directed variant: directories only, a sibling sub-directory in the catalogue, operations next / extract */
+#define NPATH 5
+static const char *const cat_path[NPATH] = { 0, "a/", "a/b/", "c/", "a/c/" };
+#else
+#define NPATH 4
+static const char *const cat_path[NPATH] = { 0, "a/", "a/b/", "c/" };
+#endif
 static const char *const cat_name[3] = { 0, "f", "gg" };
 static const char *const cat_target[4] = { "t", "/t", "../t", "x/.." };
 static const int target_dangerous[4] = { 0, 1, 1, 1 };
@@ -248,7 +254,10 @@ void harness(void)
 	(void) failk;
 #endif
 	for (i = 0; i < M; ++i) {
-		ASSUME(kind[i] <= 2 && pathi[i] <= 3 && namei[i] <= 2 && targeti[i] <= 3);
+		ASSUME(kind[i] <= 2 && pathi[i] < NPATH && namei[i] <= 2 && targeti[i] <= 3);
+#ifdef DIRS_ONLY
+		ASSUME(kind[i] == 1);
+#endif
 		if (kind[i] == 1) ASSUME(pathi[i] != 0 && namei[i] == 0);          /* directory: path, no name   */
 		else ASSUME(namei[i] != 0);                                        /* file, symlink: a name      */
 		mem_kind[i] = kind[i]; mem_path[i] = pathi[i]; mem_name[i] = namei[i]; mem_target[i] = targeti[i];
@@ -266,6 +275,9 @@ void harness(void)
 	for (step = 0; step < K; ++step) {
 		u8 op = ops[step];
 		ASSUME(op <= 5);
+#ifdef DIRS_ONLY
+		ASSUME(op == 0 || op == 3);
+#endif
 		if (op == 0) {
 			int fake, e = model_next(&fake);
 			LHAFileHeader *h = lha_reader_next_file(reader);
